@@ -111,6 +111,16 @@ fn check_cell(method: &str, status: u16, same_host: bool, body: &str) -> (Option
         }
         let mut cur = AnyFlow::RecvResponse(f).proceed().map_err(|e| ("C15:harness".to_string(), e))?.ok_or(("C15:harness".to_string(), "proceed refused".to_string()))?;
         let _ = &mut cur;
+        // whether a body state lies between the head and the redirect state is decided by the framing
+        // rules (C06): e.g. a HEAD response never has one, whatever its framing headers say
+        let want_body = {
+            let cl = match body { "cl0" => Some("0"), "cl3" => Some("3"), _ => None };
+            let te = if body == "chunked" { Some("chunked") } else { None };
+            matches!(crate::refmodel::framing::after(status, crate::refmodel::framing::decide(method, status, true, cl, te)), crate::refmodel::framing::After::RecvBody)
+        };
+        if matches!(cur, AnyFlow::RecvBody(_)) != want_body {
+            return Err(("C15:redirect-state-not-entered".into(), format!("{}: after the head the flow is in {} but the framing rules say the response has {} body: the redirect state is not entered when it should be", cell, cur.name(), if want_body { "a" } else { "no" })));
+        }
         if let AnyFlow::RecvBody(mut b) = cur {
             let mut out = [0u8; 16];
             let (c, _) = b.read(body_bytes, &mut out).map_err(|e| ("C15:harness".to_string(), format!("read: {:?}", e)))?;
